@@ -276,7 +276,7 @@ fn any_script() {
 //@ bounds: reader in state InFile(rem) with ANY rem, Ready or Finish; file id arbitrary; up to 2 further runs with arbitrary offsets; next up to 2 block headers ARBITRARY (type, id, length incl. u64::MAX); source holding any number of content bytes and returning any count per read; caller buffer 0..=8
 //@ stubs: ArchiveFileBlock::from -> scripted arbitrary header (real header parser outside the claim); alloc::fmt::format; From<mla::Error> for io::Error
 //@ outside: more than 3 runs / 2 consecutive blocks per call; byte values
-//@ replay: verif_replay_lib::lib_b2f st:u8 rem:u64 my:u64 cur:usize nruns:usize
+//@ replay: verif_replay_lib::lib_b2f st:u8 rem:u64 my:u64 cur:usize nruns:usize o0:u64 o1:u64 o2:u64 k0:u8 k1:u8 id0:u64 len0:u64 id1:u64 len1:u64 left:u64 blen:usize
 #[kani::proof]
 #[kani::unwind(4)]
 #[kani::stub(alloc::fmt::format, nofmt)]
@@ -351,3 +351,8 @@ fn h_lib_b2f_step() {
     }
     let _ = src_has;
 }
+
+// (H-W-REFUSED dropped: even with EMPTY name tables, constructing an ArchiveWriter (HashMap::new ->
+//  RandomState -> thread-local keys) and running its state checks did not finish in 10 min. The
+//  ArchiveWriter API level stays outside the C09 claim; the native template `lib_writer_refused`
+//  is kept as a regression scenario for replay.)
